@@ -9,6 +9,7 @@ package cons
 
 import (
 	"fmt"
+	"reflect"
 
 	"github.com/NethermindEth/juno/consensus/starknet"
 	"github.com/NethermindEth/juno/consensus/tendermint"
@@ -23,7 +24,9 @@ import (
 // Cfg mirrors the constants of MCTendermint / MCDriver.
 type Cfg struct {
 	NV        int    `json:"nv"`
-	Power     []uint `json:"power"` // index 0 = validator 1
+	// Powers[i][v-1] = voting power of validator v at height H0+i (cyclic: MCTendermint!MCPowerOf);
+	// the stakes, and with them the total / f / quorum, change from one height to the next.
+	Powers    [][]uint `json:"powers"`
 	MaxVal    int    `json:"maxVal"`
 	NValid    int    `json:"nValid"`
 	MaxRound  int    `json:"maxRound"`
@@ -73,6 +76,10 @@ type Post struct {
 	Started bool `json:"started"`
 	Lts     int  `json:"lts"`
 	Lq      int  `json:"lq"`
+	// thresholds the vote counter holds for its current height
+	Tot int `json:"tot"`
+	F   int `json:"f"`
+	Q   int `json:"q"`
 }
 
 type (
@@ -113,25 +120,46 @@ func HashID(h *Hash) int {
 // (MCProposerOf(h, r) = ((h + r + PropShift) % NV) + 1).
 type Validators struct{ C *Cfg }
 
-func (v Validators) TotalVotingPower(types.Height) types.VotingPower {
-	var t uint
-	for _, p := range v.C.Power {
-		t += p
-	}
-	return types.VotingPower(t)
+func (v Validators) TotalVotingPower(h types.Height) types.VotingPower {
+	return types.VotingPower(v.C.Total(int(h)))
 }
 
-func (v Validators) ValidatorVotingPower(_ types.Height, a *Address) types.VotingPower {
-	i := AddrID(*a)
-	if i < 1 || i > v.C.NV {
-		return 0
-	}
-	return types.VotingPower(v.C.Power[i-1])
+func (v Validators) ValidatorVotingPower(h types.Height, a *Address) types.VotingPower {
+	return types.VotingPower(v.C.PowerAt(int(h), AddrID(*a)))
 }
 
 func (v Validators) Proposer(h types.Height, r types.Round) Address {
 	return Addr(v.C.ProposerOf(int(h), int(r)))
 }
+
+// PowerAt is MCPowerOf(h, v).
+func (c *Cfg) PowerAt(h, v int) uint {
+	if v < 1 || v > c.NV {
+		return 0
+	}
+	n := len(c.Powers)
+	return c.Powers[((h-int(c.H0))%n+n)%n][v-1]
+}
+
+// Total, Q, F: Tendermint!TotalPower(h), Q(h), F(h).
+func (c *Cfg) Total(h int) uint {
+	var t uint
+	for v := 1; v <= c.NV; v++ {
+		t += c.PowerAt(h, v)
+	}
+	return t
+}
+
+func (c *Cfg) Q(h int) uint {
+	d := 2 * c.Total(h)
+	q := d / 3
+	if d%3 > 0 {
+		q++
+	}
+	return q
+}
+
+func (c *Cfg) F(h int) uint { return (c.Total(h) - 1) / 3 }
 
 func (c *Cfg) ProposerOf(h, r int) int { return ((h+r+c.PropShift)%c.NV+c.NV)%c.NV + 1 }
 
@@ -270,12 +298,31 @@ func (m *Machine) State() Post {
 	if !ok {
 		panic("cons: not a tendermint.stateMachine")
 	}
+	tot, f, q := m.thresholds()
 	return Post{
+		Tot: tot, F: f, Q: q,
 		H: int(s.Height), Round: int(s.Round), Step: int(s.Step),
 		Lv: ValID(s.LockedValue), Lr: int(s.LockedRound), Vv: ValID(s.ValidValue), Vr: int(s.ValidRound),
 		Tpv: s.TimeoutPrevoteScheduled, Tpc: s.TimeoutPrecommitScheduled, Flag: s.LockedValueAndOrValidValueSet,
 		Started: s.IsHeightStarted, Lts: int(s.LastTriggerSync), Lq: int(s.LastQuorum),
 	}
+}
+
+// thresholds reads the vote counter's private threshold fields (read-only, by reflection: the
+// counter has no accessor for them and the public queries only reveal them indirectly).
+func (m *Machine) thresholds() (tot, f, q int) {
+	vc := reflect.ValueOf(tendermint.VerifVoteCounter(m.SM)).Elem()
+	get := func(name string) int {
+		fv := vc.FieldByName(name)
+		if !fv.IsValid() {
+			panic("cons: votecounter.VoteCounter has no field " + name)
+		}
+		return int(fv.Uint())
+	}
+	if h := get("currentHeight"); h != int(m.SM.Height()) {
+		return -h, -1, -1 // the counter and the machine disagree about the height
+	}
+	return get("totalVotingPower"), get("faultyVotingPower"), get("quorumVotingPower")
 }
 
 func b2i(b bool) int {
